@@ -19,7 +19,7 @@
 From Slim Require Import Base Keys Model BitmapRank BitmapRankProofs BitmapRank2 BitmapRank2Proofs
      BitmapSelectProofs Bits BitsVlenProofs BitsWfProofs BitsEncProofs BitsDecProofs BitsNodeProofs
      BitsProofs BitsFlatProofs.
-From Slim Require Import QueryProofs Flat Msg MsgProofs.
+From Slim Require Import QueryProofs Flat FlatProofs Msg MsgProofs.
 From SlimGen Require Gen_Consts.
 Local Open Scope N_scope.
 
@@ -246,6 +246,16 @@ Theorem L3_message_get :
     mget (S fuel) m vs q = get T q.
 Proof. exact mget_get. Qed.
 Print Assumptions L3_message_get.
+
+(* searchID (the id triple behind Search / RangeGet / scans' seek) run over the message, with
+   leftMost / rightMost following Rank128 of the node's bit range *)
+Theorem L3_message_searchid :
+  forall o keys vals T m vs q fuel,
+    build o keys vals = Ok T -> encode_trie T = Val m -> init_vars m = Val vs ->
+    (trie_height T <= fuel)%nat ->
+    msearchid (S fuel) m vs q = Ok (let '(l, e, rr) := searchid T q in (oid l, oid e, oid rr)).
+Proof. exact msearchid_searchid. Qed.
+Print Assumptions L3_message_searchid.
 
 (* C01 end to end at the bit level: every retained key is found THROUGH THE MESSAGE with the
    bytes of its supplied value *)
